@@ -263,7 +263,8 @@ def main():
         )
     m = dict(
         version=1,
-        setup_cmd="cd lean && lake build " + " ".join(f"JoblibProofs.{c['property_id']} drv_{c['property_id'].lower()}" for c in checks),
+        setup_cmd="cd lean && lake build " + " ".join(f"JoblibProofs.{c['property_id']} drv_{c['property_id'].lower()}" for c in checks)
+        + " JoblibProofs.M1L drv_m1l",
         hooks=dict(
             guard="JOBLIB_VERIF",
             enable="no source hooks: checks import joblib from /repo's working tree (VERIF_REPO overrides the path) and "
